@@ -16,6 +16,11 @@ for l in raw:
     files = subprocess.run(["git", "-C", REPO, "show", "--name-only", "--format=", h], capture_output=True, text=True).stdout
     commits.append((h, s, b, files))
 shas = {c[0] for c in commits}
+# exact mapping: `git cherry-pick -x` records the original id in the body
+picked = {}
+for h, s_, b, fs in commits:
+    for m in re.findall(r"cherry picked from commit ([0-9a-f]{7,40})", b):
+        picked[m[:7]] = (h, s_)
 def toks(t):
     return set(w.lower() for w in re.findall(r"[A-Za-z_][A-Za-z_0-9]{3,}", t))
 changed = 0
@@ -26,6 +31,12 @@ for p in sorted(glob.glob(os.path.join(V, "findings", "*.json"))):
             continue
         cur = re.findall(r"[0-9a-f]{7,}", f.get("commit", ""))
         if cur and all(c[:7] in shas for c in cur):
+            continue
+        exact = [picked[c[:7]] for c in cur if c[:7] in picked]
+        if exact and len(exact) == len(cur):
+            new = " (+".join(e[0] for e in exact) + (")" if len(exact) > 1 else "")
+            print("%s: %s -> %s  (exact, %s)" % (os.path.basename(p), f.get("commit"), new, exact[0][1][:60]))
+            f["commit"] = new; f["commit_subject"] = exact[0][1]; dirty = True; changed += 1
             continue
         ft = toks(f["what"])
         sc = sorted(((len(ft & toks(s + " " + b + " " + fs)) / (len(toks(s + " " + b + " " + fs)) ** 0.5 + 1), h, s)
